@@ -81,10 +81,27 @@ package iavl
 //@   props C17
 //@   ensures [errflow] !old(fault) && fault ==> err != nil
 //@   loop 1 invariant !old(fault) && fault ==> parked[itr]
-//@   modifies fault
+//@   modifies fault, parked
 
 //@ func (*MutableTree).enableFastStorageAndCommit(tree) (err)
 //@   props C17
 //@   ensures [errflow] !old(fault) && fault ==> err != nil
 //@   loop 1 invariant !old(fault) && fault ==> parked[itr]
 //@   modifies fault
+
+// ---- wrappers that hand out a storage iterator: a failure while creating or positioning it is either
+// reported as the error result or parked in the iterator handed out (to be picked up through Error()) ----
+
+//@ func (*nodeDB).getFastIterator(ndb, start, end, ascending) (it, err)
+//@   props C17
+//@   ensures [sticky] old(fault) ==> fault
+//@   ensures [reported-or-parked] fault && !old(fault) ==> err != nil || parked[it]
+//@   ensures [fresh] err == nil ==> it != nil && fresh(it)
+//@   modifies fault, parked
+
+//@ func (*nodeDB).getPrefixIterator(ndb, prefix) (it, err)
+//@   props C17
+//@   ensures [sticky] old(fault) ==> fault
+//@   ensures [reported-or-parked] fault && !old(fault) ==> err != nil || parked[it]
+//@   ensures [fresh] err == nil ==> it != nil && fresh(it)
+//@   modifies fault, parked
